@@ -106,17 +106,18 @@ V_HARNESS(h_pfc_step)
 }
 
 /* ---- 2. SEQ with a reference SENDER (EN 300 708 section 4) --------------------
- * NPAGES pages of PPP packets each on page PX.block.pgno / stream, consecutive continuity indices.
+ * NPAGES pages of PPP packets each on page MAG/PG, stream STREAM, consecutive continuity indices from CI0.
  *   page header X/0: page number, S1 = continuity index, S2 (3 bit) + S4 (2 bit) = number of packets, S3 = stream
  *   packet X/1..PPP: byte 2 = block pointer BP (Hamming 8/4; 3*BP = offset of the first block separator of the
  *                    packet in its 39 data bytes, 13 = no block starts here), bytes 3..41 data
  *   data stream: [fillers 0x03] BS 0x0C, structure header = 4 Hamming 8/4 nibbles, lsn first, of
  *                (application id | block size << 5), block bytes, [fillers] BS ...; BS, filler Hamming 8/4;
  *                the first BS of a packet is moved by fillers to an offset divisible by 3
- * Block sizes / paddings / page geometry come from the grid (the layout is concrete, CBMC rule 3), block bytes,
- * application ids, page number, stream, first continuity index, control bits and the interleaved unrelated
- * packets are symbolic.  DROP = index in the sequence (header, PPP packets) x NPAGES of one packet that is
- * not fed (-1 none, 99 symbolic). */
+ * Everything that steers the demux (geometry, sizes, paddings, application ids, page, stream, CI, which packet is
+ * lost) comes from the grid: the layout is concrete (CBMC rules 2 and 3; one fully symbolic packet costs minutes,
+ * see h_pfc_step).  Symbolic: all block bytes, header control bits and text, contents of the interleaved
+ * unrelated packets.  DROP = index in the sequence (header, PPP packets) x NPAGES of the one packet that is not
+ * fed (-1 none). */
 #ifndef NPAGES
 #define NPAGES 3
 #endif
@@ -152,6 +153,24 @@ V_HARNESS(h_pfc_step)
 #endif
 #ifndef DROP
 #define DROP -1
+#endif
+#ifndef MAG
+#define MAG 1
+#endif
+#ifndef PG
+#define PG 0xF7
+#endif
+#ifndef STREAM
+#define STREAM 5
+#endif
+#ifndef CI0
+#define CI0 14
+#endif
+#ifndef CBITS
+#define CBITS 0x1A
+#endif
+#ifndef APP0
+#define APP0 9		/* application id of block b = (APP0 + 7 b) & 31 */
 #endif
 #ifndef UNREL
 #define UNREL 1		/* interleave unrelated packets */
@@ -208,18 +227,16 @@ static int pfc_layout(void)
 
 V_HARNESS(h_pfc_seq)
 {
-  unsigned mag, pg, stream, ci0, f, b, i, exp_n = 0, e_idx[NBMAX]; int drop = DROP; vbi_pgno pgno; vbi_bool r;
+  unsigned f, b, i, exp_n = 0, e_idx[NBMAX]; const int drop = DROP; vbi_bool r;
+  const vbi_pgno pgno = (vbi_pgno) ((((MAG) ? (MAG) : 8) << 8) | (PG));
   uint8_t pkt[42], unrel[42];
   V_INIT();
-  mag = in_u8() & 7; pg = in_u8(); stream = in_u8() & 15; ci0 = in_u8() & 15;
-  pgno = (vbi_pgno) (((mag ? mag : 8) << 8) | pg);
-  r = _vbi_pfc_demux_init(&PX, pgno, stream, pfc_seq_cb, &pcb_n);
+  r = _vbi_pfc_demux_init(&PX, pgno, STREAM, pfc_seq_cb, &pcb_n);
   V_ASSERT(r && pfc_inv(&PX), "pfc_init_invariant");
-  for (b = 0; b < NB; b++) { b_app[b] = in_u8() & 31; in_bytes(b_data[b], SZMAX); }
-  if (DROP == 99) { drop = in_u8(); V_ASSUME(drop < NFEED); }
+  for (b = 0; b < NB; b++) { b_app[b] = (APP0 + 7 * b) & 31; in_bytes(b_data[b], SZMAX); }
   V_ASSUME(pfc_layout());
 #ifdef KNOWN_PFC_LAST_PACKET_LOSS
-  /* defect (see pfc_last_packet_loss): losing the last packet(s) of a page while a block is in progress */
+  /* defect (obligation pfc_last_packet_loss): losing the last packet(s) of a page while a block is in progress */
   if (drop >= 0 && drop % (PPP + 1) == PPP)
     for (b = 0; b < NB; b++) {
       unsigned gd = (unsigned) drop / (PPP + 1) * PPP + PPP - 1;
@@ -228,28 +245,26 @@ V_HARNESS(h_pfc_seq)
 #endif
   for (f = 0; f < NFEED; f++) {
     unsigned g = f / (PPP + 1), j = f % (PPP + 1);
-    if (UNREL) {					/* unrelated traffic: other magazine, or packets 26..31 of ours */
-      unsigned um, up; uint8_t c3, c4;
-      in_bytes(unrel, 42); um = in_u8() & 7; up = in_u8() & 31;
-      V_ASSUME(up > 25 || (um != mag));
+    if (UNREL) {	/* unrelated traffic: a packet 1..25 of another magazine, or a packet 26..31 of ours; body arbitrary */
+      unsigned um = (f & 1) ? (MAG) : (((MAG) + 1 + f) & 7), up = (f & 1) ? 26 + (f % 6) : 1 + (f % 25);
+      if (um == (MAG) && up <= 25) um = ((MAG) + 1) & 7;
+      in_bytes(unrel, 42);
       unrel[0] = ref_ham8(um | ((up & 1) << 3)); unrel[1] = ref_ham8(up >> 1);
-      c3 = in_u8() & 15; c4 = in_u8() & 15;
-      if (up == 0) { unrel[2] = ref_ham8(c3); unrel[3] = ref_ham8(c4); }	/* a readable page number */
       r = vbi_pfc_demux_feed(&PX, unrel);
       V_ASSERT(r, "pfc_unrelated_returns_true");
     }
+    in_bytes(pkt, 42);				/* header bytes 8..41: control bits, header text: don't care */
     if (j == 0) {
-      unsigned s1 = (ci0 + g) & 15, cbits = in_u8();
-      for (i = 0; i < 42; i++) pkt[i] = in_u8();		/* bytes 8..41: control bits, header text: don't care */
-      pkt[0] = ref_ham8(mag); pkt[1] = ref_ham8(0);
-      pkt[2] = ref_ham8(pg & 15); pkt[3] = ref_ham8(pg >> 4);
+      unsigned s1 = (CI0 + g) & 15, cbits = (CBITS) >> g;	/* C4, C5, C6: concrete, they share Hamming bytes with S2/S4 */
+      pkt[0] = ref_ham8(MAG); pkt[1] = ref_ham8(0);
+      pkt[2] = ref_ham8((PG) & 15); pkt[3] = ref_ham8((PG) >> 4);
       pkt[4] = ref_ham8(s1);
       pkt[5] = ref_ham8((PPP & 7) | ((cbits & 1) << 3));			/* S2, C4 */
-      pkt[6] = ref_ham8(stream);
+      pkt[6] = ref_ham8(STREAM);
       pkt[7] = ref_ham8(((PPP >> 3) & 3) | (((cbits >> 1) & 3) << 2));	/* S4, C5, C6 */
     } else {
       unsigned gp = g * PPP + (j - 1);
-      pkt[0] = ref_ham8(mag | ((j & 1) << 3)); pkt[1] = ref_ham8(j >> 1);
+      pkt[0] = ref_ham8((MAG) | ((j & 1) << 3)); pkt[1] = ref_ham8(j >> 1);
       pkt[2] = ref_ham8(p_bp[gp]);
       for (i = 0; i < 39; i++) pkt[3 + i] = p_stream[gp * 39 + i];
     }
@@ -274,11 +289,9 @@ V_HARNESS(h_pfc_seq)
   for (i = 0; i < NBMAX; i++) if (i < exp_n && i < pcb_n) {
     unsigned k; b = e_idx[i];
     V_ASSERT(pcb_log[i].size == b_size[b] && pcb_log[i].app == b_app[b], "pfc_block_header");
-    V_ASSERT(pcb_log[i].pgno == pgno && pcb_log[i].stream == stream, "pfc_block_source");
+    V_ASSERT(pcb_log[i].pgno == pgno && pcb_log[i].stream == STREAM, "pfc_block_source");
     for (k = 0; k < SZMAX; k++) if (k < b_size[b]) V_ASSERT(pcb_log[i].d[k] == b_data[b][k], "pfc_block_bytes");
   }
-  if (exp_n == NB) V_REACH("all");
   if (exp_n >= 1) V_REACH("some");
-  if (drop >= 0 && exp_n >= 1 && e_idx[exp_n - 1] == NB - 1 && exp_n < NB) V_REACH("resumed");
   V_END();
 }
